@@ -21,7 +21,7 @@ def rows_eq(got, exp):
 def run(f):
     try: return f(), None
     except Exception as e: return None, type(e).__name__+':'+re.sub(r'\d+','N',str(e)[:60])
-for it in range(60000):
+for it in range(int(__import__("os").environ.get("RECON_N", 60000))):
     op = random.choice(['cat0','cat1','like','pad','nonzero','where','subset','maskidx','rslice_ra','rslice_1d','rslice_2d','maskset'])
     key=None; info=None
     if op=='cat0':
